@@ -373,6 +373,11 @@ pub(crate) mod k {
     pub fn stub_format(_args: core::fmt::Arguments<'_>) -> String {
         String::new()
     }
+    /// `core::fmt::write` (the formatting engine behind write!/format!) -> no output, Ok: the text of
+    /// diagnostics (e.g. the message ZipWriter's Drop prints to stderr) is not part of any property.
+    pub fn stub_fmt_write(_out: &mut dyn core::fmt::Write, _args: core::fmt::Arguments<'_>) -> core::fmt::Result {
+        Ok(())
+    }
     /// crc32fast CPU feature detection -> portable baseline implementation.
     pub fn stub_crc_specialized(_init: u32, _amount: u64) -> Option<crc32fast::Hasher> {
         None
